@@ -285,6 +285,45 @@ theorem C06_session_swap_same_program_narrow (fuel : Nat) (sr : UInt64) (P : Pro
   rw [sessionFrom_same_program fuel sr inputs P lay hpub hl hself.symm hcov m0 hinit swaps hsame N m0 m0 hag hgood,
     sessionFrom_nil]
 
+/-- **hot-swapping an unchanged program is inaudible — for EVERY program, state inside `if` arms included** (the class
+condition `noStatefulInArms` of `C06_session_swap_same_program` is gone: after the repair of finding F3 the compiler
+publishes a cell for every stateful site, in both arms of every `if`, so the published layout IS the layout of all sites —
+`fullFn_eq_publishFn` — and covers the body of every program — `publishFnN_covers`).  Hypotheses left: the sites of every
+body are pairwise distinct with word-sized ring lengths, `main` starts the machine, and the uninterrupted run keeps its
+globals and a `dsp` state tree conforming to the PUBLISHED layout (typing facts).  Then every session whose swap events all
+name `P` returns exactly the samples of the uninterrupted run, for every run length and input stream -/
+theorem C06_session_swap_same_program_all (fuel : Nat) (sr : UInt64) (P : Prog) (lay : LNode)
+    (swaps : List (Nat × Prog)) (inputs : Nat → List UInt64) (N : Nat) (m0 : Machine)
+    (hsame : ∀ e ∈ swaps, e.2 = P)
+    (hpub : publishFn P P.dsp = some lay) (hs : SitesUnique P) (hd : SitesOk P.dsp.body)
+    (hinit : Machine.init fuel P sr = .ok m0)
+    (hgood : ∀ j m, machineAfter fuel P sr inputs j m0 = some m → m.store = m0.store ∧ ConformsS lay m.root) :
+    session fuel sr P swaps inputs N = runFrom fuel P sr inputs N m0 := by
+  obtain ⟨hself, hcov⟩ := publishFnN_covers P.fns.length P P.dsp lay hpub
+  have hl := C05_publish_ok P.fns.length P P.dsp lay hs hd hpub
+  have hag : MAgree lay m0 m0 := ⟨rfl, rfl, Agree.refl lay m0.root⟩
+  simp only [session, hinit]
+  rw [sessionFrom_same_program fuel sr inputs P lay hpub hl hself.symm hcov m0 hinit swaps hsame N m0 m0 hag hgood,
+    sessionFrom_nil]
+
+/-- the layout of all stateful sites (`fullFn`, the second layout of `C06_session_swap_same_program`) is the published one -/
+theorem C06_full_layout_is_published (P : Prog) (d : FnDecl) : fullFn P d = publishFn P d := fullFn_eq_publishFn P d
+
+/-! non-vacuity of `C06_session_swap_same_program_all` outside every former class: the witness of finding F3,
+`dsp() = if (now > 2) counter() else counter()*100` — static hypotheses hold, the layout has one child per call site -/
+example :
+    let counterF : FnDecl := ⟨"counter", [], .bin .add .self (.lit 1), some .num⟩
+    let P : Prog := ⟨[], [counterF], ⟨"dsp", [],
+      .ite (.bin .gt .now (.lit 2)) (.call "counter" [] 1) (.bin .mul (.call "counter" [] 2) (.lit 100)), none⟩⟩
+    publishFn P P.dsp = some ⟨none, [.child 1 (some .num) [], .child 2 (some .num) []]⟩ ∧
+    noStatefulInArms P P.dsp.body = false ∧ SitesUnique P ∧ SitesOk P.dsp.body := by
+  intro counterF P
+  refine ⟨rfl, rfl, ?_, ?_⟩
+  · intro d hd
+    simp only [P, List.mem_cons, List.not_mem_nil, or_false] at hd
+    subst hd; simp [SitesOk, siteLens, counterF]
+  · simp [SitesOk, siteLens, siteLensL, P]
+
 /-! non-vacuity: `dsp(x) = mem(x)`: every hypothesis holds, for every fuel, input stream and every run length (the root never
 stores a `self`, the layout has one `mem` cell); a session with three swaps, two of them at the same time -/
 example (fuel : Nat) (sr : UInt64) (inputs : Nat → List UInt64) (N : Nat) (m0 : Machine)
@@ -305,23 +344,20 @@ example (fuel : Nat) (sr : UInt64) (inputs : Nat → List UInt64) (N : Nat) (m0 
     exact ⟨this, by simp [ConfSL, ConfS]⟩
 
 /-! the static hypotheses of `C06_session_swap_same_program` outside the narrow class: `g(y) = y*2`,
-`dsp(x) = mem(x) + (if x then 1 else g(x))`: mirgen publishes `[mem 0]` (nothing for the call in the `else` arm), the layout
-of all sites has the zero-sized child of the call in addition -/
+`dsp(x) = mem(x) + (if x then 1 else g(x))`: the labelled published layout lists the zero-sized child of the call in the
+`else` arm (the bare skeleton drops it), and IS the layout of all sites -/
 example :
     let gF : FnDecl := ⟨"g", ["y"], .bin .mul (.var "y") (.lit 2), none⟩
     let P : Prog := ⟨[], [gF], ⟨"dsp", ["x"],
       .bin .add (.mem (.var "x") 0) (.ite (.var "x") (.lit 1) (.call "g" [.var "x"] 1)), none⟩⟩
-    publishFn P P.dsp = some ⟨none, [.mem 0]⟩ ∧ fullFn P P.dsp = some ⟨none, [.mem 0, .child 1 none []]⟩ ∧
-    noStateInArms P P.dsp.body = false ∧ noStatefulInArms P P.dsp.body = true ∧ SitesUnique P ∧ SitesOk P.dsp.body ∧
-    ExtL [.mem 0] [.mem 0, .child 1 none []] := by
+    publishFn P P.dsp = some ⟨none, [.mem 0, .child 1 none []]⟩ ∧ fullFn P P.dsp = some ⟨none, [.mem 0, .child 1 none []]⟩ ∧
+    publishedSk ⟨none, [.mem 0, .child 1 none []]⟩ = .fn [.mem 1] ∧
+    noStateInArms P P.dsp.body = false ∧ noStatefulInArms P P.dsp.body = true ∧ SitesUnique P ∧ SitesOk P.dsp.body := by
   intro gF P
-  refine ⟨rfl, rfl, rfl, rfl, ?_, ?_, ?_⟩
+  refine ⟨rfl, rfl, rfl, rfl, rfl, ?_, ?_⟩
   · intro d hd
     simp only [P, List.mem_cons, List.not_mem_nil, or_false] at hd
     subst hd; simp [SitesOk, siteLens, gF]
   · simp [SitesOk, siteLens, siteLensL, P]
-  · have h2 : ExtL [] [LCell.child 1 none []] := extL_nil_of_zero _ (by simp [sizeCells, LCell.size, selfSize])
-    have := extL_append _ _ _ _ (extL_single (.mem 0) (.mem 0) (by simp [ExtC])) h2
-    simpa using this
 
 end Mimium.LiveCoding
